@@ -31,6 +31,11 @@ pub fn build_arg(a: &Value) -> Arg {
     for al in a["aliases"].as_array().unwrap() {
         x = if visible.contains(&al) { x.visible_alias(s_of(al)) } else { x.alias(s_of(al)) };
     }
+    for sa in a["saliases"].as_array().map(|v| v.to_vec()).unwrap_or_default() {
+        if let Some(c) = ch(&sa) {
+            x = x.short_alias(c);
+        }
+    }
     match a["action"].as_str().unwrap() {
         "" => {}
         "Set" => x = x.action(ArgAction::Set),
